@@ -1170,8 +1170,8 @@ THEOREMS = [
     "C16.caller_id", "C16.constructors_share", "C16.derived_shares", "C16.program_fuel", "C16.request_auto",
     "C16.test_covers", "C16.no_other_writer", "C16.hdr_init_ok", "C16.request_spec", "C16.auth_chain_keeps",
     "C16.request_supplied_id", "C16.request_caller_id", "C16.request_auto_sent", "C16.par_world",
-    "C16.par_link", "C16.parCore_total", "C16.request_cases", "C16.history_ids_distinct",
-    "C16.history_from_scratch",
+    "C16.par_link", "C16.parCore_total", "C16.outcome_keeps_number", "C16.request_cases",
+    "C16.history_ids_distinct", "C16.history_from_scratch",
 ]
 
 
@@ -1199,7 +1199,12 @@ def _is_id_name(name):
 
 
 FAILURES = {"url": "URLError", "http": "HTTPError", "timeout": "TimeoutError", "exc": "RuntimeError",
-            "disc": "RemoteDisconnected", "reset": "ConnectionResetError", "pipe": "BrokenPipeError"}
+            "disc": "RemoteDisconnected", "reset": "ConnectionResetError", "pipe": "BrokenPipeError",
+            # the request went out and was answered with 200, but processing the answer fails
+            "badjson": "JSONDecodeError", "badutf": "UnicodeDecodeError", "respad": "ValueError",
+            # ... or does not even look at the body (raw_response=True): nothing is raised
+            "raw": None}
+RESPONSES = {"badjson": b"<html>not json</html>", "badutf": b"\xff\xfe\xfa", "respad": b"", "raw": b"<html>not json</html>"}
 
 
 def make_failure(kind, request):
@@ -1238,6 +1243,13 @@ def _failure_matches(kind, e):
     import socket
     import urllib.error
     import http.client
+    import json
+    if kind == "badjson":
+        return isinstance(e, json.JSONDecodeError)
+    if kind == "badutf":
+        return isinstance(e, UnicodeDecodeError)
+    if kind == "respad":
+        return type(e) is ValueError
     want = {"url": urllib.error.URLError, "http": urllib.error.HTTPError, "timeout": socket.timeout, "exc": RuntimeError,
             "disc": http.client.RemoteDisconnected, "reset": ConnectionResetError, "pipe": BrokenPipeError}[kind]
     if kind == "reset" and isinstance(e, http.client.RemoteDisconnected):
@@ -1254,6 +1266,7 @@ class _Capture:
     def __init__(self):
         self.sent = {}         # thread -> [(number of the send() call of that thread, id handed to the opener)]
         self.tag = {}
+        self.respfail = {}     # thread -> the response adapter of the harness rejects the next answer
         self.fail = {}         # thread -> how the opener fails on the next request of that thread
 
     def __enter__(self):
@@ -1265,6 +1278,10 @@ class _Capture:
             me = threading.get_ident()
             cap.sent.setdefault(me, []).append((cap.tag.get(me, 0), request.get_header("X-request-id")))
             kind = cap.fail.pop(threading.get_ident(), None)
+            if kind in RESPONSES:
+                if kind == "respad":
+                    cap.respfail[me] = True
+                return _FakeHttpResponse(request.method, 200, RESPONSES[kind])
             if kind is not None:
                 raise make_failure(kind, request)
             return _FakeHttpResponse(request.method, 200, b"")
@@ -1331,7 +1348,17 @@ class _Real:
     def wrap(self, c, kind, spec="none"):
         parent, fam = self.conns[c]
         ch = self.ch
-        if kind in ID_KINDS:
+        if kind == "respfail":
+            cap = self.cap
+
+            class RespAdapter(ch.RequestAdapter):    # a response adapter of the caller's that may reject an answer
+                def process_response(self, return_value):
+                    if cap.respfail.pop(threading.get_ident(), False):
+                        raise ValueError("answer rejected")
+                    return return_value
+            d = ch.HttpConn(parent, adapters=[RespAdapter()])
+            self.id_values.append(list(self.id_values[c]))
+        elif kind in ID_KINDS:
             value = dec_str(spec.split(":", 1)[1])
             polite = kind == "idpolite"
 
@@ -1355,7 +1382,7 @@ class _Real:
         if all(d.conn_impl is not f["impl"] for f in self.fams) and d.conn_impl not in self.extra_impls:
             wrap_locks(d.conn_impl)        # not shared with the parent (the property is then broken)
             self.extra_impls.append(d.conn_impl)
-        if kind not in ID_KINDS:
+        if kind not in ID_KINDS and kind != "respfail":
             self.id_values.append(list(self.id_values[c]))
         self.conns.append((d, fam))
         return len(self.conns) - 1
@@ -1384,16 +1411,19 @@ class _Real:
         if fail is None:
             getattr(conn, method)("p", **kw)
             return None
+        if fail == "raw":
+            kw["raw_response"] = True
         self.cap.fail[threading.get_ident()] = fail
         try:
             getattr(conn, method)("p", **kw)
         except BaseException as e:
-            if _failure_matches(fail, e) and threading.get_ident() not in self.cap.fail:
+            if fail != "raw" and _failure_matches(fail, e) and threading.get_ident() not in self.cap.fail:
                 return FAILURES[fail]
             raise
         finally:
             self.cap.fail.pop(threading.get_ident(), None)
-        return "nothing"
+            self.cap.respfail.pop(threading.get_ident(), None)
+        return None if fail == "raw" else "nothing"
 
 
 AUTH_ARGS = {"bauth": ("user", "pw"), "token": ("tok",), "client": ("cn", "cid", "cs")}
@@ -1783,6 +1813,8 @@ def wrap_line(parent, kind, value=None):
     X-Request-ID (always / unless the request already has an id in any capitalisation)"""
     if kind in ID_KINDS:
         return "wrap %d %s %s:%s" % (parent, kind, ID_KINDS[kind], enc_str(value or "Zadapter"))
+    if kind == "respfail":      # a plain HttpConn with a response adapter of the caller's that can reject an answer
+        return "wrap %d respfail none" % parent
     a = auth_value(kind)
     return "wrap %d %s %s" % (parent, kind, "none" if a is None else "auth:" + enc_str(a))
 
@@ -1825,9 +1857,12 @@ def _src(rng, ndict, p_none=0.55):
     return enc_hdrs(_rand_headers(rng, p_none))
 
 
-def _req_line(rng, conns, p_none=0.55, ndict=0, p_fail=0.08):
+GEN_FAILS = sorted(k for k in FAILURES if k != "respad")     # respad needs a connection with the rejecting adapter
+
+
+def _req_line(rng, conns, p_none=0.55, ndict=0, p_fail=0.1):
     m = rng.choice(METHODS) if rng.random() < 0.5 else "get"
-    fail = " " + rng.choice(sorted(FAILURES)) if rng.random() < p_fail else ""
+    fail = " " + rng.choice(GEN_FAILS) if rng.random() < p_fail else ""
     return "req %d %s %s%s" % (rng.choice(conns), _src(rng, ndict, p_none), m, fail)
 
 
@@ -1878,7 +1913,7 @@ def _par_line(rng, conns, kind, L, A, R, nthreads=None, p_none=0.8, dicts=()):
         threads.append(reqs)
         nreq.append(sum(1 for _, _, h in reqs if not any(_is_id_name(k) for k, _ in h)))
     spec = "|".join("." if not t else "+".join(
-        "%d@%s%s" % (c, src, "!" + rng.choice(sorted(FAILURES)) if rng.random() < 0.1 else "") for c, src, _ in t)
+        "%d@%s%s" % (c, src, "!" + rng.choice(GEN_FAILS) if rng.random() < 0.1 else "") for c, src, _ in t)
         for t in threads)
     return "par %d %s %s" % (conns[0], spec, enc_sched(_sched(rng, kind, nthreads, nreq, L, A, R)))
 
@@ -1924,10 +1959,17 @@ def corpus():
     # the opener fails after it was handed the request (network error, HTTP error status, timeout, anything):
     # the failed request had its id; the numbering goes on, on the base and on derived connections
     lines = ["new %s 1" % x, wrap_line(0, "bauth"), wrap_line(0, "plain"), "req 0 _"]
-    for kind in sorted(FAILURES):
+    for kind in GEN_FAILS:
         lines += ["req 1 _ get %s" % kind, "req 0 _", "req 2 _ post %s" % kind, "req 1 _", "req 0 _ put %s" % kind, "req 2 _"]
     lines += ["par 0 0@_!url+0@_|1@_!http+2@_|2@_!timeout 0*7,1*9,2*3", "req 0 _"]
     out.append({"lines": lines, "meta": {"kind": "corpus-failing-opener"}})
+    # the answer arrives (200) but cannot be processed: body that is no JSON / no UTF-8, a response adapter of the
+    # caller's that rejects it; raw_response=True does not look at the body.  The request was sent: its number is used
+    out.append({"lines": ["new %s 1" % x, wrap_line(0, "respfail"), wrap_line(1, "token"), "req 0 _",
+                          "req 0 _ get badjson", "req 0 _", "req 1 _ post badutf", "req 0 _", "req 1 _ get respad", "req 1 _",
+                          "req 2 _ put respad", "req 0 _", "req 2 _ get raw", "req 0 _ get raw", "req 0 _",
+                          "par 0 0@_!badjson+0@_|1@_!respad+2@_|2@_!badutf 0*7,1*9,2*3", "req 0 _"],
+                "meta": {"kind": "corpus-answer-not-processed"}})
     out.append({"lines": ["new %s 1" % x, "req 0 _", "burst 0 10050", "req 0 _", "burst 0 3"],
                 "meta": {"kind": "corpus-burst-10000"}})
     # self-test of the search machinery: on the extracted program the model finds no schedule that repeats a number
@@ -1975,6 +2017,19 @@ def gen_cases(rng, tier):
             lines.append("par %d 0@_|0@_ 0*3" % (n + 2))
         lines.append("req 0 _")
         yield {"lines": lines, "meta": {"kind": "malformed"}}
+    # answers that cannot be processed (through a connection whose response adapter may reject them), then more requests
+    for _ in range(60 if quick else 1500):
+        lines = ["new %s 1 str" % enc_str(rng.choice(CPS)), wrap_line(0, "respfail")]
+        n = 2
+        if rng.random() < 0.5:
+            lines.append(wrap_line(1, rng.choice(KINDS)))
+            n = 3
+        for _ in range(rng.randrange(4, 14)):
+            c = rng.randrange(n)
+            kinds = ["badjson", "badutf", "raw"] + (["respad", "respad"] if c >= 1 else [])
+            fail = " " + rng.choice(kinds) if rng.random() < 0.45 else ""
+            lines.append("req %d %s %s%s" % (c, enc_hdrs(_rand_headers(rng, 0.8)), rng.choice(METHODS), fail))
+        yield {"lines": lines, "meta": {"kind": "answer-not-processed"}}
     # forced interleavings; every third scenario starts them on a connection that has not been used yet
     for n in range(800 if quick else 20000):
         lines = []
@@ -2061,7 +2116,7 @@ def search_cases(rng, tier):
     # 2c. requests that fail in the opener, then more requests
     for kind in sorted(FAILURES):
         for c in (0, 1):
-            yield {"lines": ["new %s 1" % x, wrap_line(0, "plain"), "req 0 _", "req %d _ get %s" % (c, kind), "req 0 _", "req 1 _",
+            yield {"lines": ["new %s 1" % x, wrap_line(0, "respfail"), "req 0 _", "req %d _ get %s" % (1 if kind == "respad" else c, kind), "req 0 _", "req 1 _",
                              "par 0 0@_!%s|1@_ 0*5" % kind, "req 0 _"], "meta": {"kind": "search-failing-opener"}}
     # 3. the real function on a brand-new connection (first call / first call), two threads stopped at every
     #    pair of positions, then two calls each
@@ -2207,7 +2262,8 @@ RULE = ("sequential scenarios (1-2 connection families built from 4 forms of con
         "8 % of them failing in the opener after the request was handed over (URLError, HTTPError, timeout, "
         "RemoteDisconnected, ConnectionResetError, BrokenPipeError, RuntimeError; every time a request reaches "
         "the opener counts as a send) and followed by further requests, ~10 % of the scenarios with DEBUG logging "
-        "effective for the module's logger, "
+        "effective for the module's logger, answers (200) whose processing fails after the request went out "
+        "(body not JSON / not UTF-8, a rejecting response adapter; raw_response=True as the control), "
         "bursts across 9999->10000), "
         "forced interleavings of 2-4 real threads x 0-3 requests inside the real _generate_request_id (random runs, "
         "round robin, everybody stopped inside the locked section / in the prologue of its first call, whole-call "
@@ -2247,7 +2303,9 @@ LEVEL_TEXT = ("Proved in Lean for every program of the WellLocked shape, any num
               "format_injective. History level (history_ids_distinct / history_from_scratch): over ANY list of "
               "operations (new connections, derived connections of any class, caller dicts, sequential requests "
               "with or without own id / body, concurrent batches under any schedule) no implementation object ever "
-              "sends the same generated id twice and every sent generated id renders a number below its counter. "
+              "sends the same generated id twice and every sent generated id renders a number below its counter; "
+              "sequential requests carry their outcome (answered / opener raised / answer not processed): "
+              "outcome_keeps_number - the number a sent request took stays taken. "
               "par_link: World.par (what the driver calls) = adapters, then parCore (what par_world is about); "
               "parCore_total: parCore cannot fail on well-formed input (its AssertionError branch is unreachable). "
               "model = code: sequential scenarios "
